@@ -110,6 +110,10 @@ SENSITIVITY = {
     "r20b": ("seeded/r20b/patch.diff", "C17", ["not-send-sync"], "static probe: hand-written unsafe impl Send for Interp2D<Sd, Sx, Sx, ..> - lost when x and y use different storage types"),
     "r20c": ("seeded/r20c/patch.diff", "C18", ["build-invariant", "build-invoked-on-invalid-input"], "A: 2-D minimum-length check as a lexicographic tuple comparison (4 x 2 grid, declared minimum 3)"),
     "r20d": ("seeded/r20d/patch.diff", "C18", ["callback-invariant", "wrong-target"], "A: Interp2D n-d path gathers xs|ys into a grow-only scratch split at len/2: stale ys after a larger query"),
+    "r21a": ("seeded/r21a/patch.diff", "C17", ["result-mismatch", "entry-point-mismatch"], "A: thread-local memo of the last out-of-range message keyed by (element type, value bits): x and y rejections of the same value share it"),
+    "r21b": ("seeded/r21b/patch.diff", "C17", ["result-mismatch", "data-race"], "C / B: slope row behind a 'biased lock' (UnsafeCell + unsafe impl Sync); the owner's load-then-store fast path races a take-over CAS"),
+    "r21c": ("seeded/r21c/patch.diff", "C18", ["error-changed", "callback-invariant"], "A: batch loops append the query index to errors whose text ends in 'is not in range' - also a user strategy's"),
+    "r21d": ("seeded/r21d/patch.diff", "C18", ["callback-invariant"], "A: degenerate-stride table - index_point via precomputed row offsets whose bounds check is index*|stride| < len*|stride| (stride 0)"),
     "M16": ("mutants/M16.diff", "C17", ["answers-differ-between-processes", "process-history-dependence"], "A: evaluation order picked once per process from the hasher's random seed"),
 }
 # seeded/r7d is kept but not listed: its author reads C18 as forbidding one-point axes for strategies
